@@ -310,4 +310,26 @@ theorem goexit_adds_no_panic (sc : List UAct) : hasPanic (withExit sc .goexit) =
     hasPanic (withExit sc .panicNil) = true := by
   simp [withExit, hasPanic]
 
+/-! ### (round 5e) one call = one fresh state: what a recycled panic channel does -/
+
+/-- a call whose functions neither cancel nor panic … -/
+def quietCall : Cfg :=
+  { n := 1, workers := 1, gPanicAt := none, mscript := fun _ => [.write 8], rscript := [.readAll, .write 8],
+    ctxCan := false, ctxPre := false, fixed := true }
+
+/-- … started on a FRESH panic channel (`init`) returns the reducer's value under every schedule that ends … -/
+theorem fresh_call_reraises_only_own_panics (c : Cfg) (s : St) (h : ReachA c s) (i : Nat)
+    (hr : result s = some (.panic (.mapper i))) : i < c.n ∧ UAct.panic ∈ c.mscript i :=
+  reraised_panic_is_user_panic c s (reachA_reach h) i hr
+
+/-- … but started on a RECYCLED panic channel that holds the panic of a straggler of an earlier call (seeded C10-9:
+sync.Pool of onceChans; the model's `pbuf` not empty at the start) it re-raises that foreign panic: a panic of
+"mapper 7" in a call with one item, whose functions do not panic.  So `init` (empty buffer) is an OBLIGATION on the
+code: `Tie.tie_mapReduceState`, `tie_newOnceChanAlloc`, `tie_all_state_per_call`, `tie_packageState`. -/
+theorem stale_panic_buffer_is_reraised :
+    let s0 : St := { init quietCall with pbuf := some (.mapper 7) }
+    let s := runPrioA quietCall (actors 1) 200 s0
+    result s = some (.panic (.mapper 7)) ∧ hasPanic (quietCall.mscript 0) = false ∧ hasPanic quietCall.rscript = false ∧
+    result (runPrioA quietCall (actors 1) 200 (init quietCall)) = some (.val 8) := by decide
+
 end GoZero.C10.Props6
